@@ -47,7 +47,7 @@ META["C02"] = {
             "and recombines answers; the same invariant fails for the verifier of the pinned commit (skipped history check), which is "
             "how the defect fixed by 2cea738 was found. Conformance: thousands of altered/forged wire answers derived from real "
             "answers (digests sharing 0..255-bit prefixes with inserted ones, absence claims, actual>query, recombination, wrong "
-            "snapshots) go through the real JSON decoder and real DigestVerify; TLC decides from the log whether each accepted claim is true.",
+            "snapshots) go through the real JSON decoder and real DigestVerify; TLC decides from the log whether each accepted claim is true. The adversary also relabels (query, actual) pairs and verifies them against the authentic snapshot of the relabelled version, places every known node hash at its own position on the root-to-leaf way (ancestor_in_path), and hands raw 200-OK bodies to the real HTTP client.",
     "note": _TREES_NOTE + " Adversary knowledge in MC is bounded (two edits); in conformance it is the mutation grammar of DESIGN.md §5 C02.",
     "technique": "TLA+ adversary model checked with TLC + trace validation of real verifier outcomes on mutated answers",
 }
@@ -56,7 +56,7 @@ META["C12"] = {
             "over every dropped/replaced entry. The real decoder + verifier are run on every mutation of the grammar (missing, extra, "
             "renamed, malformed keys, wrong digest lengths, version triples up to 2^64-1, >256 hyper entries, nil parts) inside a guarded "
             "goroutine with a deadline; TLC validates each outcome: a panic or timeout is a violation, and accept/reject is compared "
-            "with the specification verifier.",
+            "with the specification verifier. Raw 200-OK bodies (null, {}, [], truncated JSON, wrong types) are handed to the real HTTP client by a scripted server; a panic or hang of the client is a violation.",
     "note": _TREES_NOTE + " Arbitrary byte strings are covered only as structured mutations of genuine answers (not model checking of all byte strings).",
     "technique": "TLA+ total verifier specification + TLC trace validation of guarded real-verifier runs on structured mutations",
 }
@@ -67,7 +67,7 @@ META["C14"] = {
     "text": "Store.tla specifies one sorted map per table; its lemmas (paged scan returns every entry once in order for every page size, "
             "last = max of that table only, inclusive ranges, isolation) are model-checked exhaustively. Both real back-ends are driven "
             "with seeded operation sequences and every reply is validated against the model by TLC (this is how the cross-table leaks of "
-            "the B+ store and the bounded GetLast of the RocksDB store were found).",
+            "the B+ store and the bounded GetLast of the RocksDB store were found). A batch of more than 1024 mutations is written while a concurrent reader takes consistent range reads over its keys (RocksDB); scans run with fresh and with re-used pages.",
     "note": _STORE_NOTE, "technique": "TLA+ sorted-map model (TLC) + trace validation of both real store back-ends",
 }
 META["C15"] = {
@@ -85,7 +85,7 @@ META["C05"] = {
             "proposals, raft-internal entries (index gaps), compute/persist steps, crashes, restarts with the replay filter, snapshots and "
             "state transfer. Real clusters are driven with single/bulk adds, follower stop/restart and leadership transfers; TLC validates "
             "every acknowledgement (version = next one, m consecutive versions per bulk, event digest, canonical history/hyper digests) and "
-            "every store write of every node (applied index strictly increasing, insertion continues at the node's next version).",
+            "every store write of every node (applied index strictly increasing, insertion continues at the node's next version). Concurrent writers (one bulk of 255..700 events against three writers of small bulks on three nodes) must each get consecutive versions in request order.",
     "note": _CLUSTER_NOTE, "technique": "TLA+ cluster model (TLC) + trace validation of real raft clusters through a gated store",
 }
 META["C06"] = {
@@ -103,7 +103,7 @@ META["C09"] = {
             "new node is used), events are added, raft snapshots are forced on the others (log compaction), optionally the leader changes, "
             "the node (re)joins by gRPC state transfer; then every event is queried ON THE RESTORED NODE and verified against the leader's "
             "snapshots, its store is compared with the other replicas, more events are added and the restored node is made leader so that "
-            "its locally computed digests are the acknowledged ones; all validated by TLC.",
+            "its locally computed digests are the acknowledged ones; all validated by TLC. Restore variants are enumerated (new / old node with history none, one event, several x first missed insertion single / bulk x leader change); the restored node is then made leader and itself serves a full transfer to a follower whose disk was replaced (Cluster.tla: Wipe, WalServesEveryone).",
     "note": _CLUSTER_NOTE + " The gap-refusal clause is model-checked only (forcing RocksDB to drop WAL files takes minutes of load).",
     "technique": "TLA+ cluster model with InstallSnapshot (TLC) + trace validation of real state transfer",
 }
@@ -115,7 +115,7 @@ META["C07"] = {
             "itself with SIGKILL exactly there, is restarted, and TLC validates that the state it reports is the state before or after the "
             "interrupted atomic write, that replay applies the interrupted entry exactly once (index strictly above the persisted one, "
             "insertion continues at the next version), that later acknowledgements carry the canonical digests, and that every event "
-            "(also those acknowledged before the crash) has a proof that verifies against the original snapshots.",
+            "(also those acknowledged before the crash) has a proof that verifies against the original snapshots. A long log (three bulks of ~360 events, > 1000 hyper cache tiles) is SIGKILLed at the next store write and recovered.",
     "note": _CLUSTER_NOTE + " Process death (SIGKILL) is the fault model; power loss is out of scope (QED does not fsync by configuration). "
             "Random wall-clock SIGKILLs are not used: the crash points are enumerated at the store-write boundary.",
     "technique": "TLA+ crash model (TLC) + fault enumeration by SIGKILL at every store write, validated by TLC trace checking",
@@ -125,7 +125,7 @@ META["C08"] = {
             "observable. Real code: a child-process node is stopped cleanly at every prefix length (including zero insertions) and "
             "reopened; its exit status must be 0 (the assertion-enabled RocksDB aborts on leaked references), the gated store must see "
             "every reader closed, the reloaded (applied index, version) must equal the persisted ones, and all later acknowledgements and "
-            "proofs must equal the canonical ones (TLC); the balloon is additionally closed/reopened at random points on RocksDB.",
+            "proofs must equal the canonical ones (TLC); the balloon is additionally closed/reopened at random points on RocksDB. Scale: a balloon of 1000..3900 events is reopened at 999 / 1000 / 1001 / mid-page / multi-page hyper-cache tile counts (incremental hyper tree of Hyper.tla, shown canonical by MC_Hyper); a node is stopped while a query is parked inside its history proof (shutdown must wait, the process must survive).",
     "note": _CLUSTER_NOTE, "technique": "TLA+ cluster model (TLC) + trace validation of stop/reopen at every prefix incl. process exit status",
 }
 
@@ -135,8 +135,8 @@ META["C10"] = {
             "real node the gated store holds the store write of an insertion while concurrent goroutines issue membership queries for old "
             "and in-flight events at all versions and consistency queries for pairs including in-flight versions; each reply must be a "
             "clean error or a proof that verifies against the snapshots acknowledged for the versions it names, be computed from ONE prefix "
-            "the node could hold (before or after the insertion), and no query may fail internally or hang; TLC validates every reply.",
-    "note": _CLUSTER_NOTE + " The data-race clause is a memory-model property outside TLA+: not decided here (the drivers can be built with -race manually).",
+            "the node could hold (before or after the insertion), and no query may fail internally or hang; TLC validates every reply. An insertion is also parked inside balloon.AddBulk (gated read of the hyper table), and proofs taken before an insertion are encoded and verified only after it.",
+    "note": _CLUSTER_NOTE + " The data-race clause is a memory-model property outside TLA+: in the thorough tier the window / replicas / backup / HTTP scenarios run once more under the Go race detector and a report between two QED sites (no verification hook on either stack) is a violation; the quick tier does not decide it.",
     "technique": "TLA+ compute/persist window model (TLC) + gated-store schedule replay with TLC trace validation of every reply",
 }
 META["C16"] = {
@@ -145,7 +145,7 @@ META["C16"] = {
             "captured store, listing = existing backups, delete removes only the named one, also for backups taken inside the held "
             "compute->persist window); then every existing backup is restored into a fresh directory and opened as a new node: reported "
             "version, membership + consistency of its v+1 events against the ORIGINAL snapshots, later events unknown, and the next "
-            "insertion must get version v+1 with the canonical digests of the forked log.",
+            "insertion must get version v+1 with the canonical digests of the forked log. A backup taken while an insertion is submitted between the version read and the engine copy (gated Backup) must record the version of what it captures; every second restored node is restarted before its first insertion.",
     "note": _CLUSTER_NOTE + " A backup of an empty log (no version exists) is not judged.",
     "technique": "TLA+ backup invariant (TLC) + trace validation of backup/list/delete/restore on real nodes",
 }
@@ -155,7 +155,7 @@ META["C11"] = {
             "add extends the log, by exactly its number of events; a valid add answers 2xx); Cluster.tla's NoVersionPanic covers 'everything "
             "replicated is applicable'. The request matrix is fired at the real apihttp/mgmthttp muxes over a real RaftNode hosted in a "
             "child process (so an FSM panic is a real process death); TLC validates each outcome: a dropped connection, a dead or wedged "
-            "process, a log change by a non-add, a failed liveness probe or a failed restart (log replay) is a violation.",
+            "process, a log change by a non-add, a failed liveness probe or a failed restart (log replay) is a violation. Batches repeating one event 2, 3, N times, and insertions during concurrent membership queries for a 6 MB key, are part of the matrix.",
     "note": "Trusted: TLC, the driver's HTTP client, net/http. The matrix is structured (not all byte strings); oversized means 300 events.",
     "technique": "TLA+ request/response specification + TLC trace validation of the real HTTP handlers over a child-process node",
 }
@@ -180,7 +180,7 @@ META["C17"] = {
             "arrival patterns; TLC validates every batch (size, no duplicate, nothing unknown, configured TTL) and that nothing is left once "
             "arrivals stop. Signatures are symbolic in the specification (Sig(m) verifies exactly m); the real ed25519 clause is exercised by "
             "the harness: each published signature verifies, and every single-field change and every single signature-bit flip of sampled "
-            "snapshots (and another key) must fail.",
+            "snapshots (and another key) must fail. Snapshots carry 32-byte digests; one bit at byte offsets 1..31 of every digest, truncations and swaps must each break the signature.",
     "note": "Trusted: TLC; the harness re-creates the signed message as fmt.Sprintf(\"%v\", snapshot) exactly as server/sender.go does (the repository has no "
             "verifier for signed snapshots). Cryptographic strength of ed25519 is not a TLA+ matter: only the enumerated modifications are tried.",
     "technique": "TLA+ batcher model incl. liveness (TLC) + trace validation of the real sender and signature tamper enumeration",
@@ -195,7 +195,7 @@ META["C18"] = {
             "of receptions per batch. The real Topology is exercised by concurrent joins/leaves and routing decisions; a crash of the process "
             "or a nil/excluded/duplicate peer returned by Each is a violation.",
     "note": "Trusted: memberlist delivery, TLC. Linearizability of Topology is judged by result invariants (never an excluded peer, at most one per role, "
-            "permanent members always found), not by a full linearizability checker; data races as such are outside TLA+.",
+            "permanent members always found), not by a full linearizability checker; data races as such are outside TLA+: the thorough tier runs both conformance scenarios once more under the Go race detector (a report between two QED sites is a violation).",
     "technique": "TLA+ gossip model (TLC) + trace validation of real agents over memberlist + concurrent stress of the real topology",
 }
 
@@ -206,7 +206,7 @@ META["C19"] = {
             "is due exactly when a bound value or the log's answer was altered. The real factories run inside a real agent with the real batch "
             "processor, client and API handlers over a real node; TLC validates for every delivered batch that an alert is raised iff due, that "
             "no alert is raised against the honest log (also for alterations of values a task does not bind), that the publisher forwards "
-            "exactly the not-yet-forwarded snapshots, and a crash of the agent (e.g. on an empty batch) is a violation.",
+            "exactly the not-yet-forwarded snapshots, and a crash of the agent (e.g. on an empty batch) is a violation. Batches start anywhere including the log's current version, and each pass re-delivers an honest batch altered but with its original signatures.",
     "note": "Trusted: TLC, the recording notifier / snapshot store / task manager of the harness. One alteration per batch; the snapshot store being "
             "unable to deliver a snapshot at all is not judged.",
     "technique": "TLA+ agent/verifier specification (TLC) + trace validation of the real task factories under single alterations",
@@ -218,7 +218,7 @@ META["C13"] = {
             "queries beyond the current version) is model-checked; every proof in the balloon and cluster traces goes through the real JSON round "
             "trip with fields and verdict compared under TLC. What TLC cannot hold (64-bit magnitudes in position keys, byte-level msgpack/JSON "
             "fidelity of snapshots, batches and gossip messages) is checked by an identity oracle on the real encoders, logged and accepted/rejected "
-            "by a trivial trace spec.",
+            "by a trivial trace spec. Every encoding is decoded twice: at once and after all later encodings were produced.",
     "note": "The magnitude / byte-level clause is an identity oracle, not model checking (TLC integers are 32-bit). Replicated commands are covered "
             "indirectly: they travel through their real encoding and the raft log store in every cluster run, and replica stores are compared.",
     "technique": "TLA+ wire-mapping invariant (TLC) + TLC-validated round trips of every real proof + identity oracle for magnitudes",
